@@ -1,6 +1,6 @@
 CONSTANTS
   MaxLen = 2
-  GraphIdx = {1, 2, 3, 4, 5, 6, 7}
+  GraphIdx = {1, 2, 3, 4, 5, 6, 7, 9}
   Alpha = "wide"
 SPECIFICATION Spec
 INVARIANT TypeInv
